@@ -126,6 +126,7 @@ fn main() {
             }
         }
         Some("c12-fresh") => c12::fresh_main(args[1].parse().unwrap()),
+        Some("debug-c13-seeds") => c13::debug_seeds(),
         Some("dump-snip") => {
             for s in exec::snippets(Tier::Thorough) {
                 if s.name == args[1] {
